@@ -156,6 +156,8 @@ CLAIMED = {
 NOT_APPLICABLE = {
     "C07": "liveness / progress under bounded buffers and cancellation are statements over schedules and fairness; sequential function contracts (sends never block in the model) cannot express or decide them",
     "C12": "exactness and termination of the mark/jump signal protocol quantify over interleavings of five goroutines; outside what per-function contracts can state",
+    "C13": "the property is about worker pools, a multiplexer and batchers keeping order and multiplicity 'under any worker latency or scheduling': it quantifies over interleavings of goroutines; a sequential contract of one goroutine body cannot state it, and the engine does not execute spawned goroutines",
+    "C17": "data-race freedom, absence of termination and linearisability of acknowledged edits are properties of concurrent executions; contracts over one sequential call cannot express them (the crash found in the BulkAdd handler is covered under C18/C06)",
 }
 
 PENDING = "contracts for this property are not written yet in this revision (see DESIGN.md §5 for the plan); not claimed until its obligations discharge"
